@@ -7,7 +7,9 @@ ASSUMPTIONS = ["the built binary (go build of /repo/main.go) is run in scratch d
                "-no-output suppresses the JSON files as well (main.go returns before writing them): treated as the documented meaning of 'do not output any results'"]
 
 # contents, names and replacements carry the bytes an output path could mangle: % (printf verbs), quotes, backslashes, <>&
-FILES = {"a.txt": "banana band 50%an% an\"q an\\y", "b.txt": "an apple\nand a nap %d an%s", "c.log": "bandana", "d%s 100%.txt": "an%v & <an>"}
+FILES = {"a.txt": "banana band 50%an% an\"q an\\y", "b.txt": "an apple\nand a nap %d an%s", "c.log": "bandana", "d%s 100%.txt": "an%v & <an>",
+         # names in which the literal tail of *.txt starts to match early and has to be retried
+         "x.t.txt": "an", "only..txt": "nan", "a.txt.txt": "anan"}
 PROGS = {"find": "find all 'an' maybe in '%', '\"', '\\\\', '>'", "replace": "replace all 'an' with '<%' value '%d>'", "delete": "replace all 'an' with ''", "failing": "find all ("}
 FILESETS = {"one": "a.txt", "several": "*.txt", "glob": "*", "none": "*.nothing"}
 
